@@ -11,40 +11,49 @@
    Deviation switches (FALSE = the code as it is):
      LenientMatch     other record types whose name ends in "RuntimeDone" also flush
      NotifyEarly      the forwarder notifies after the first answered attempt instead of after the delivery attempt as a whole
-     NoInitialFlush   the heartbeat does not flush before its first wait *)
+     NoInitialFlush   the heartbeat does not flush before its first wait
+     InitialNotifyOnly  the heartbeat only posts the notification instead of flushing first *)
 EXTENDS Naturals, FiniteSets, TLC
-CONSTANTS MaxInv, MaxPoints, MaxAttempts, MaxOther, LenientMatch, NotifyEarly, NoInitialFlush
+CONSTANTS MaxInv, MaxPoints, MaxAttempts, MaxOther, LenientMatch, NotifyEarly, NoInitialFlush, InitialNotifyOnly
 
-VARIABLES hb, chan, cons, posts, nextId, rt, inv, pending, others, point,
+VARIABLES hb, chan, cons, posts, nextId, rt, inv, pending, others, point, marked,
           accepted, due, settled, inflight, answered, nexts, running, doneSent, faulty, initErr, bad
 Prop == INSTANCE LambdaProp
-ivars == <<hb, chan, cons, posts, nextId, rt, inv, pending, others, point>>
+ivars == <<hb, chan, cons, posts, nextId, rt, inv, pending, others, point, marked>>
 mvars == <<accepted, due, settled, inflight, answered, nexts, running, doneSent, faulty, initErr, bad>>
 vars == <<ivars, mvars>>
 
 Init == /\ hb = (IF NoInitialFlush THEN "wait" ELSE "flush0") /\ chan = 0 /\ cons = {} /\ posts = {} /\ nextId = 1 /\ rt = "idle" /\ inv = 0
-        /\ pending = 0 /\ others = 0 /\ point = 1 /\ Prop!PInit
+        /\ pending = 0 /\ others = 0 /\ point = 1 /\ marked = NoInitialFlush /\ Prop!PInit
 
 \* consolidator.Flush + the forwarder's Run loop taking the batch: an empty batch only notifies
 Spawn(st) == /\ posts' = posts \cup {[id |-> nextId, ds |-> cons, st |-> st, n |-> 0, told |-> FALSE]} /\ nextId' = nextId + 1 /\ cons' = {}
 DoFlush == Spawn(IF cons = {} THEN "notify" ELSE "send")
+\* a bare notification: nothing leaves the consolidator
+Spawn0 == posts' = posts \cup {[id |-> nextId, ds |-> {}, st |-> "notify", n |-> 0, told |-> FALSE]} /\ nextId' = nextId + 1 /\ UNCHANGED cons
 
-HbFlush0 == hb = "flush0" /\ hb' = "wait" /\ DoFlush /\ UNCHANGED <<chan, rt, inv, pending, others, point, mvars>>
-HbWait == hb = "wait" /\ chan = 1 /\ chan' = 0 /\ hb' = "next" /\ Prop!PNextReq /\ UNCHANGED <<cons, posts, nextId, rt, inv, pending, others, point>>
+\* datapoints accepted during the init phase; the mark says they are due with the initial flush
+InitEmit == hb = "flush0" /\ ~marked /\ point <= MaxPoints /\ cons' = cons \cup {point} /\ point' = point + 1 /\ Prop!PAccept(point)
+            /\ UNCHANGED <<hb, chan, posts, nextId, rt, inv, pending, others, marked>>
+InitMark == hb = "flush0" /\ ~marked /\ marked' = TRUE /\ Prop!PInitMark /\ UNCHANGED <<hb, chan, cons, posts, nextId, rt, inv, pending, others, point>>
+HbFlush0 == /\ hb = "flush0" /\ marked /\ hb' = "wait"
+            /\ (IF InitialNotifyOnly THEN Spawn0 ELSE DoFlush)
+            /\ UNCHANGED <<chan, rt, inv, pending, others, point, marked, mvars>>
+HbWait == hb = "wait" /\ chan = 1 /\ chan' = 0 /\ hb' = "next" /\ Prop!PNextReq /\ UNCHANGED <<cons, posts, nextId, rt, inv, pending, others, point, marked>>
 RtInvoke == hb = "next" /\ rt = "idle" /\ pending = 0 /\ inv < MaxInv /\ inv' = inv + 1 /\ rt' = "running" /\ hb' = "wait" /\ others' = 0
-            /\ Prop!PInvoke /\ UNCHANGED <<chan, cons, posts, nextId, pending, point>>
+            /\ Prop!PInvoke /\ UNCHANGED <<chan, cons, posts, nextId, pending, point, marked>>
 FnEmit == rt = "running" /\ point <= MaxPoints /\ cons' = cons \cup {point} /\ point' = point + 1 /\ Prop!PAccept(point)
-          /\ UNCHANGED <<hb, chan, posts, nextId, rt, inv, pending, others>>
+          /\ UNCHANGED <<hb, chan, posts, nextId, rt, inv, pending, others, marked>>
 \* a telemetry batch with another record type (platform.start, platform.report, platform.initRuntimeDone, ...)
 RtOther == rt \in {"running", "idle"} /\ others < MaxOther /\ others' = others + 1
            /\ (IF LenientMatch THEN DoFlush ELSE UNCHANGED <<cons, posts, nextId>>)
-           /\ UNCHANGED <<hb, chan, rt, inv, pending, point, mvars>>
-RtDone == rt = "running" /\ rt' = "idle" /\ pending' = pending + 1 /\ Prop!PRuntimeDone /\ UNCHANGED <<hb, chan, cons, posts, nextId, inv, others, point>>
-TelFlush == pending > 0 /\ pending' = pending - 1 /\ DoFlush /\ UNCHANGED <<hb, chan, rt, inv, others, point, mvars>>
+           /\ UNCHANGED <<hb, chan, rt, inv, pending, point, marked, mvars>>
+RtDone == rt = "running" /\ rt' = "idle" /\ pending' = pending + 1 /\ Prop!PRuntimeDone /\ UNCHANGED <<hb, chan, cons, posts, nextId, inv, others, point, marked>>
+TelFlush == pending > 0 /\ pending' = pending - 1 /\ DoFlush /\ UNCHANGED <<hb, chan, rt, inv, others, point, marked, mvars>>
 
 Upd(p, q) == posts' = (posts \ {p}) \cup {q}
 PostAttempt(p) == p.st = "send" /\ Upd(p, [p EXCEPT !.st = "flight", !.n = @ + 1]) /\ Prop!PUpReq(p.ds)
-                  /\ UNCHANGED <<hb, chan, cons, nextId, rt, inv, pending, others, point>>
+                  /\ UNCHANGED <<hb, chan, cons, nextId, rt, inv, pending, others, point, marked>>
 \* the answer: success ends the delivery; failure backs off and retries until the window is over (MaxAttempts)
 PostAnswer(p, ok) == /\ p.st = "flight" /\ Prop!PUpDone(p.ds)
                      /\ LET done == ok \/ p.n >= MaxAttempts
@@ -52,11 +61,11 @@ PostAnswer(p, ok) == /\ p.st = "flight" /\ Prop!PUpDone(p.ds)
                         IF early /\ chan = 0
                         THEN chan' = 1 /\ Upd(p, [p EXCEPT !.st = "send", !.told = TRUE])
                         ELSE ~early /\ chan' = chan /\ Upd(p, [p EXCEPT !.st = IF done THEN (IF p.told THEN "gone" ELSE "notify") ELSE "send"])
-                     /\ UNCHANGED <<hb, cons, nextId, rt, inv, pending, others, point>>
-PostNotify(p) == p.st = "notify" /\ chan = 0 /\ chan' = 1 /\ posts' = posts \ {p} /\ UNCHANGED <<hb, cons, nextId, rt, inv, pending, others, point, mvars>>
-PostGone(p) == p.st = "gone" /\ posts' = posts \ {p} /\ UNCHANGED <<hb, chan, cons, nextId, rt, inv, pending, others, point, mvars>>
+                     /\ UNCHANGED <<hb, cons, nextId, rt, inv, pending, others, point, marked>>
+PostNotify(p) == p.st = "notify" /\ chan = 0 /\ chan' = 1 /\ posts' = posts \ {p} /\ UNCHANGED <<hb, cons, nextId, rt, inv, pending, others, point, marked, mvars>>
+PostGone(p) == p.st = "gone" /\ posts' = posts \ {p} /\ UNCHANGED <<hb, chan, cons, nextId, rt, inv, pending, others, point, marked, mvars>>
 
-Next == HbFlush0 \/ HbWait \/ RtInvoke \/ FnEmit \/ RtOther \/ RtDone \/ TelFlush
+Next == InitEmit \/ InitMark \/ HbFlush0 \/ HbWait \/ RtInvoke \/ FnEmit \/ RtOther \/ RtDone \/ TelFlush
         \/ \E p \in posts : PostAttempt(p) \/ PostNotify(p) \/ PostGone(p) \/ \E ok \in BOOLEAN : PostAnswer(p, ok)
 Spec == Init /\ [][Next]_vars
 MonitorQuiet == bad = ""
